@@ -100,9 +100,17 @@ func recDet(env *core.Env, emit func(map[string]any)) (*core.Summary, error) {
 			return nil, err
 		}
 		fail := func(err error) (*core.Summary, error) { long.stop(); return nil, err }
-		if _, err := long.call(&Cmd{Cmd: "node", Plugins: plug}, callTimeout); err != nil {
+		nr, err := long.call(&Cmd{Cmd: "node", Plugins: plug}, callTimeout)
+		if err != nil {
 			return fail(err)
 		}
+		// the genesis block on an empty database: this chain, and a second chain instance of the same process
+		emit(map[string]any{"ev": "Gen", "cfg": sc % 2, "proc": "long", "dig": digs.id("gen|" + nr.Gen)})
+		cr, err := long.call(&Cmd{Cmd: "chain", Plugins: plug}, callTimeout)
+		if err != nil {
+			return fail(err)
+		}
+		emit(map[string]any{"ev": "Gen", "cfg": sc % 2, "proc": "long-second-chain", "dig": digs.id("gen|" + cr.Gen)})
 		tag := fmt.Sprintf("r%d.", sc)
 		var chain [][][]TxSpec
 		for i := rng.Intn(3); i > 0; i-- {
@@ -156,10 +164,12 @@ func recDet(env *core.Env, emit func(map[string]any)) (*core.Summary, error) {
 				if err != nil {
 					return fail(err)
 				}
-				if _, err := c.call(&Cmd{Cmd: "node", Plugins: plug}, callTimeout); err != nil {
+				fr, err := c.call(&Cmd{Cmd: "node", Plugins: plug}, callTimeout)
+				if err != nil {
 					c.stop()
 					return fail(err)
 				}
+				emit(map[string]any{"ev": "Gen", "cfg": sc % 2, "proc": "fresh", "dig": digs.id("gen|" + fr.Gen)})
 				for _, b := range chain {
 					if _, err := c.call(&Cmd{Cmd: "block", Items: b, Mode: mode, Reps: 1}, callTimeout); err != nil {
 						c.stop()
